@@ -50,6 +50,7 @@ def run(ctx, rep):
     r5(ctx, prog, ev, rep, slice_fn, index_fn)
     r6(prog, ev, rep, slice_fn, slice_args, index_fn, index_args)
     r7(prog, ev, rep, slice_fn, slice_args)
+    shared.selector_tables(prog, ev, rep, "C11-R8")
 
 
 def fam_with_helpers(prog, fn):
@@ -585,6 +586,18 @@ def _guard_of(prog, pc, names, arr):
     return guard
 
 
+def _extra_conds(pc, names, skip=None):
+    """conditions on the path to a walk, other than the sign guard and the loop condition, that read the slice parameters or a
+    length: under them the code selects nothing, which the walk comparison does not see"""
+    out = []
+    for c in pc:
+        if c[0] != "if" or c[1] is skip:
+            continue
+        if any((y in names) or (y.k == "call" and y.a[0].rsplit("::", 1)[-1] == "len") or (y.k == "call" and y.a[0].rsplit("::", 1)[-1] == "is_empty") for y in subterms(c[1])):
+            out.append(c[1])
+    return out
+
+
 def loop_walks(prog, ev, sites, names, arr, gets, abstain):
     """counter loops  `idx = init; while idx < bound { ..get(idx).. ; idx += step }`"""
     out = []
@@ -612,6 +625,9 @@ def loop_walks(prog, ev, sites, names, arr, gets, abstain):
         guard = _guard_of(prog, pc, names, arr)
         if guard is None or cond is None:
             abstain.append("dispatch guard / loop condition not found on the path to the update"); continue
+        ex = _extra_conds(pc, names, skip=cond)
+        if ex:
+            abstain.append("the walk is only reached under a further condition on the bounds (`%s`): an early exit that the walk comparison cannot see" % str(ex[0])[:120]); continue
         cn = norm(prog, cond, names, arr)
         idxn = norm(prog, idx, names, arr)
 
@@ -649,6 +665,9 @@ def range_walks(prog, ev, sites, names, arr, abstain):
             continue
         seen.add(id(s["node"]))
         pc = s["pc"]
+        ex = _extra_conds(pc, names)
+        if ex:
+            abstain.append("the walk is only reached under a further condition on the bounds (`%s`): an early exit that the walk comparison cannot see" % str(ex[0])[:120]); continue
         fd = dict(src.a[2])
         a, b = fd.get("start"), fd.get("end")
         names_ = [st[0] for st in stages]
@@ -875,6 +894,8 @@ def _r6(prog, ev, rep, slice_fn, slice_args, index_fn, index_args, title):
                 abstain.append("element fetch is not at the walk's counter")
     for a in abstain:
         rep.note("C11-R6 abstains: " + a)
+    if abstain:
+        rep.unrecognised(RID[0], "%s|walks" % slice_fn, prog.loc_of(slice_fn), "the slice handler could not be read as two index walks: " + "; ".join(abstain)[:400])
     rep.extra["c11_r6_decided"] = decided
     rep.extra["c11_r6_abstained"] = abstain
     rep.extra["c11_r6_walks"] = [w["kind"] for w in walks]
